@@ -23,7 +23,7 @@ Directive summary (lines starting with //@):
       //@rw enumerate                 R7: `for (i, PAT) in E.iter().enumerate() {`  (also .rev())
       //@rw wildcard_closure          R9: `|_|` => `|_e|`
       //@subst KIND "A" => "B" [count N]   declared literal rewrite (KIND in R4,R5,R6,R7,R11)
-      //@hole NAME from "TEXT" [occ N] => "REPLACEMENT"   R8: expression from after TEXT up to the
+      //@hole NAME from "TEXT" [occ N] [until "{"] => "REPLACEMENT"   R8: expression from after TEXT up to the
                                       statement's terminating ';' becomes REPLACEMENT; content recorded
       //@stmthole NAME loop K => "REPLACEMENT"   R8 statement form: whole K-th loop statement
       //@attr #[...]                  add an attribute line above the fn (Verus-only attributes)
@@ -477,12 +477,22 @@ class Extractor:
                     occ = int(mm.group(1))
                     rest = rest[mm.end():]
                 rest = rest.strip()
+                until = None
+                mu = re.match(r'until\s+', rest)
+                if mu:
+                    until, rest = parse_quoted(rest[mu.end():])
+                    rest = rest.strip()
                 if not rest.startswith('=>'):
                     raise SpecError('%s:%d: hole needs =>' % (wf, wno))
                 rep, _ = parse_quoted(rest[2:])
                 pos = nth(item, mask, needle, occ, body_open, body_close, '%s hole %s' % (qual, name))
                 hs = pos + len(needle)
-                he = stmt_end(item, mask, hs, body_close)
+                if until == '{':
+                    he = next_open_brace(item, mask, hs, body_close)
+                elif until is not None:
+                    raise SpecError('%s:%d: hole until supports only "{"' % (wf, wno))
+                else:
+                    he = stmt_end(item, mask, hs, body_close)
                 if he < 0:
                     raise LostAnchor('%s hole %s: statement end not found' % (qual, name))
                 self.holes[name] = {'fn': qual, 'content': item[hs:he].strip(), 'replacement': rep}
